@@ -1,5 +1,6 @@
 import Operon.Model.Cascade
 import Operon.Model.CascadeObs
+import Operon.Model.CascadeMapk
 /-! Helper lemmas for the cascade theorems (C19). -/
 namespace Operon.Cascade
 
@@ -565,5 +566,16 @@ def rowAgrees (r : Nat × Bool × List (Nat × Nat × Nat × Bool) × Bool × Op
     res.success == ok && res.final == fin && res.completed == comp && res.blockedAt == blk &&
     res.results.map (fun x => (x.idx, statusCode x.status)) == sts &&
     res.log.map evCode == log && res.amplification == (amp : Rat)
+
+/-- does `mapkPreset 2 3 5` reproduce the evaluated facts about the real preset? -/
+def mapkAgrees (f : List (Bool × Nat × Bool × Bool) × List (Nat × Nat × Nat × Nat)) : Bool :=
+  let st : List (Stage Nat) := mapkPreset 2 3 5
+  let dflt : Stage Nat := ⟨none, fun x => .ok x, none, true, 1⟩
+  let attrs : List (Bool × Nat × Bool × Bool) :=
+    (List.range 3).map fun k => ((st.getD k dflt).checkpoint.isSome, f.1.getD k (false, 0, false, false) |>.2.1,
+      (st.getD k dflt).required, (st.getD k dflt).onError.isSome)
+  let facts : List (Nat × Nat × Nat × Nat) :=
+    (List.range 3).flatMap fun k => (List.range 4).map fun a => (k, a, gateCode (st.getD k dflt) a, procCode (st.getD k dflt) a)
+  st.length == 3 && f.1 == attrs && f.1.map (fun p => ((p.2.1 : Nat) : Rat)) == st.map (·.amp) && f.2 == facts
 
 end Operon.Cascade
